@@ -523,7 +523,7 @@ def c10(c):
     drive("signsampler", ["--tier", c.tier, "--seed", c.seed, "--out", c.work, "--shards", 14])
     to = validate_traces("Trace_SignSampler", traces_in(c.work, "signsampler"), parallel=PAR, timeout=7200)
     c.add_traces(to, keyfn=generic_key, label="in-sign")
-    n512, n1024, keys = (1512, 756, 2) if thorough else (154, 84, 1)
+    n512, n1024, keys = (1512, 756, 2) if thorough else (112, 56, 1)
     drive("c10", ["--tier", c.tier, "--seed", c.seed, "--out", c.work, "--shards", 14, "--n512", n512, "--n1024", n1024, "--keys", keys], timeout=7200)
     files = traces_in(c.work, "mom")
     to = validate_traces("Trace_Moments", files, parallel=PAR, timeout=14400, sparse=True, xmx="4g")
